@@ -64,6 +64,10 @@ func TestCheck(t *testing.T) {
 	// the primary adopts the service's snapshot while a dead application's hot rollback journal lies next to the database;
 	// the recovery of a later role change must find nothing left to roll back into the adopted image
 	jobs = append(jobs, hist.Job{Name: "file/restore-over-hot-journal", Cfg: hist.Config{PageSize: 512, Start: 3, R2Starts: "absent", BackupKind: "file", Alphabet: []string{"hotj", "svc:ahead", "sync", "recover", "tx:t1"}, Prelude: []string{"sync"}}, Depth: 4, Budget: 60 * time.Second})
+	// the service holds a database the primary has never seen; the first download of its snapshot may fail
+	for _, kind := range []string{"file", "lfsc"} {
+		jobs = append(jobs, hist.Job{Name: kind + "/database-only-on-the-service", Cfg: hist.Config{PageSize: 512, Start: 3, R2Starts: "absent", BackupKind: kind, Alphabet: []string{"svc:newdb", "sync", "sync:fs", "sync:fs-partial", "sync:pm", "restartP"}, Prelude: []string{"sync"}}, Depth: 4, Budget: 60 * time.Second})
+	}
 	if run.Thorough() {
 		for i := range jobs {
 			jobs[i].Depth += 2
